@@ -12,3 +12,4 @@ package tcp
 //@ field tcpAcceptor.closed atomic
 //@ field tcpAcceptor.listener immutable (*tcpFactory).Listen
 //@ field tcpAcceptor.options immutable (*tcpFactory).Listen
+//@ field tcpAcceptor.* covered
